@@ -936,7 +936,10 @@ class AttrParser(BaseParser):
 
             # Handle splat values given in hex
             if len(bytes_values) == type.element_type.compile_time_size:
-                bytes_values *= type_num_values
+                try:
+                    bytes_values *= type_num_values
+                except OverflowError:
+                    self.raise_error("Dense literal type has too many elements")
 
             # Create attribute
             attr = DenseIntOrFPElementsAttr(type, BytesAttr(bytes_values))
@@ -964,7 +967,10 @@ class AttrParser(BaseParser):
                     )
             else:
                 assert len(data_values) == 1, "Fatal error in parser"
-                data_values *= type_num_values
+                try:
+                    data_values *= type_num_values
+                except OverflowError:
+                    self.raise_error("Dense literal type has too many elements")
 
         try:
             if isinstance(type.element_type, AnyFloat):
